@@ -24,6 +24,7 @@ Plan gen_feat(u64 seed); void run_feat(const Plan &p);
 Plan gen_lz4(u64 seed);  void run_lz4(const Plan &p);
 Plan gen_lz4c(u64 seed); void run_lz4c(const Plan &p);
 Plan gen_conc(u64 seed); void run_conc(const Plan &p);
+Plan gen_concneg(u64 seed); void run_concneg(const Plan &p);
 Plan gen_fuzzreg(u64 index);
 size_t fuzzreg_count();
 void feat_override(Store &st, const Fault &f);
